@@ -128,12 +128,13 @@ def enum_paths(fn, start, stop=None, max_paths=20000, edge_ok=None, cut_back_edg
     return [(a, e, end) for a, e, end, seq in enum_paths_seq(fn, start, stop, max_paths, edge_ok, cut_back_edges)]
 
 
-def enum_paths_seq(fn, start, stop=None, max_paths=20000, edge_ok=None, cut_back_edges=True):
+def enum_paths_seq(fn, start, stop=None, max_paths=20000, edge_ok=None, cut_back_edges=True, must_reach=None):
     """as enum_paths, with a fourth component: the interleaved sequence of ('stmt', bid, idx, stmt) and
     ('atom', fact, bid) in path order"""
     count = [0]
     out = []
     dom = C.dominators(fn)
+    can = C.backward_blocks(fn, must_reach) if must_reach is not None else None
 
     def rec(bid, i0, atoms, events, visited, seq=()):
         if count[0] > max_paths:
@@ -163,6 +164,8 @@ def enum_paths_seq(fn, start, stop=None, max_paths=20000, edge_ok=None, cut_back
             if s is None:
                 continue
             if edge_ok is not None and not edge_ok(bid, j):
+                continue
+            if can is not None and s not in can:
                 continue
             na = atoms
             nseq = seq
@@ -195,3 +198,26 @@ def state_functions(db, direction):
 def call_name_of(e):
     e = strip(e)
     return e.get('callee') if e is not None and e.get('k') == 'call' else None
+
+
+def accumulate_sites(fn):
+    """memcpy(dst, src, n) calls whose length n is afterwards added to a counter field (`X->cnt += n`): the
+    copy is an append into a buffer that is filled over several calls. Yields (block, idx, call, counter key,
+    ok) where ok says that dst is `<buffer> + <counter>`."""
+    out = []
+    for b, i, c in fn.calls('memcpy'):
+        n = K(c['args'][2])
+        if strip(c['args'][2]).get('k') == 'lit':
+            continue
+        counters = []
+        for bb, ii, st in fn.stmts():
+            for a in nodes(st, lambda y: y.get('k') == 'assign' and y['op'] == '+=' and K(y['r']) == n and strip(y['l']).get('k') == 'member'):
+                if bb == b and ii > i or (bb != b and b in C.dominators(fn)[bb]):
+                    counters.append(K(a['l']))
+        dst = K(c['args'][0])
+        for cnt in counters:
+            root = cnt.split('->')[0].split('.')[0]
+            if not dst.lstrip('(').startswith(root):
+                continue            # counter of some other object
+            out.append((b, i, c, cnt, ('+ ' + cnt) in dst))
+    return out
